@@ -32,6 +32,7 @@ func runC02(env *lib.Env, rep *lib.Report) {
 			// refused statements (row over the limit) between acknowledged ones: whatever they use up or stamp on
 			// the way to being refused must not confuse a later recovery
 			a.FailingInsert = true
+			a.FailingCreate = true
 		}
 		if seed == "t1x12+t2x1" {
 			// CREATE TABLE takes row ids and LSNs without writing a log record: after it the header is
